@@ -49,6 +49,7 @@ class Contract:
         self.trusted = g("trusted", None)        # reason string: the contract is ASSUMED, its body is not verified
         self.leaf_methods = g("leaf_methods", [])  # methods of a transformer modelled as the abstract leaf
         self.ghost = g("ghost", {})              # extra spec variables: name -> descriptor
+        self.ghost_effect = g("ghost_effect", None)   # {"counter": +n}: definitional effect on a ghost counter at every call
         self.replay = g("replay", None)          # name of the leaf-world builder (pyvc/leafharness.py) used to replay counterexamples
         self.doc = (spec.__doc__ or "").strip()
         self.defaults = g("defaults", {})
